@@ -10,6 +10,7 @@
 #include <csetjmp>
 #include <csignal>
 #include <cmath>
+#include <cfenv>
 #include <string>
 #include <vector>
 #include <map>
@@ -110,7 +111,7 @@ struct Stats
 
 struct Ctx;
 typedef void (*judge_fn)(Ctx &, int64_t, int64_t, int64_t);
-struct Check { const char * name; judge_fn judge; const char * doc; };
+struct Check { const char * name; judge_fn judge; const char * doc; bool fp_env = false; /* result legitimately depends on the floating-point rounding mode: skipped in the directed-rounding passes */ };
 
 struct Property
   {
@@ -143,13 +144,20 @@ struct Ctx
   // foreign judges are suppressed, only the hook may record violations
   void (*call_hook)(Ctx &, fn2, int64_t, int64_t, const CallRes &) = nullptr;
   bool suppress_foreign = false, in_hook = false;
+  // floating-point environment pass: when non-zero every guarded library call runs under this rounding direction (the
+  // judges and oracles themselves always run in round-to-nearest); index-sharded loops are thinned to 1/8
+  int fe_mode = 0;
   std::vector<int64_t> cur_results; // return values of the library calls made while judging the sampled case
 
   uint64_t n(uint64_t quick, uint64_t thorough_n) const
     { double v = (double)(thorough ? thorough_n : quick) * scale; return v < 1 ? 1 : (uint64_t)v; }
   // share of a total count for this shard
   uint64_t share(uint64_t total) const { return total / nshards + ((uint64_t)shard < total % nshards ? 1 : 0); }
-  bool mine(uint64_t index) const { return (index % (uint64_t)nshards) == (uint64_t)shard; }
+  bool mine(uint64_t index) const
+    {
+    if(fe_mode && (mix64(index * 0x9E3779B97F4A7C15ull + (uint64_t)fe_mode) & 7)) return false;
+    return (index % (uint64_t)nshards) == (uint64_t)shard;
+    }
 
   CallRes call(fn2 f, int64_t a, int64_t b);
   void stratum(const char * s, uint64_t k = 1) { st.strata[s] += k; }
@@ -164,6 +172,7 @@ struct Ctx
   void signal_event(int cfg_index, const char * entry, int64_t a, int64_t b, int sig);
   void run_check(const Check & ck, int64_t a, int64_t b = 0, int64_t c = 0)
     {
+    if(fe_mode && ck.fp_env) return;
     cur_check = ck.name; uint64_t k = ++st.per_check[ck.name]; ++st.cases;
     sampling = st.samples.size() < 16 && (k == 1 || (hash3(77, a, b, c) & 0xffff) == 0);
     if(sampling) { cur_results.clear(); uint64_t v0 = vio_total(); ck.judge(*this, a, b, c); record_sample(ck.name, a, b, c, vio_total() != v0); sampling = false; }
